@@ -89,3 +89,4 @@ reg("C15", "lbseq", configs=("utf16",))
 # C20 Pattern-trait searcher (nightly, --features pattern)
 reg("C20", "tiling", configs=("pattern",))
 reg("C20", "plumb", configs=("pattern",))
+reg("C14", "extra", fn="check_asciifold", configs=("utf16",))
